@@ -161,7 +161,9 @@ func cmdSuite(name string, gen func(r *Rng, i int, tier string) []Op, quick, tho
 	return Suite{
 		Name:   name,
 		Post:   post,
-		MkExec: func() Executor { return NewImplCmd() },
+		// in a child process: a panic in a goroutine the command started cannot be recovered
+		// in-process and would take the whole harness down
+		MkExec: func() Executor { return NewChildExec("cmd") },
 		Canon:  canonCmd,
 		Gen:    gen,
 		Cases: func(tier string) int {
